@@ -34,24 +34,35 @@ def size_eq(a, b):
 
 
 def norm_slice(sl, n):
-    """Python slice semantics on a dimension of (symbolic) length n.
-    returns ('rev', n) for [::-1]; otherwise (start, size) as z3 terms.  Only steps None/1 and
-    the full reversal are modelled (all that xgcm uses); anything else is refused."""
+    """Python slice semantics (slice.indices) on a dimension of (symbolic) length n, for step 1 and step -1.
+    returns ('rev', n) for the full reversal [::-1]; ('neg', start, size) for other step -1 slices (element k of the
+    result is element start - k of the source); otherwise (start, size) for step 1, all as z3 terms."""
     nz = _sz(n)
-    if sl.step is not None and not (isinstance(sl.step, int) and sl.step == 1):
-        if isinstance(sl.step, int) and sl.step == -1 and sl.start is None and sl.stop is None:
+    step = sl.step
+    if step is None or (isinstance(step, int) and step == 1):
+        def clamp(v, dflt):
+            if v is None:
+                return dflt
+            v = _sz(v)
+            return z3.If(v < 0, z3.If(v + nz < 0, z3.IntVal(0), v + nz), z3.If(v > nz, nz, v))
+
+        a = clamp(sl.start, z3.IntVal(0))
+        b = clamp(sl.stop, nz)
+        return (z3.simplify(a), z3.simplify(z3.If(b - a < 0, 0, b - a)))
+    if isinstance(step, int) and step == -1:
+        if sl.start is None and sl.stop is None:
             return ("rev", nz)
-        raise EngineUnsupported(f"slice step {sl.step!r} not modelled")
 
-    def clamp(v, dflt):
-        if v is None:
-            return dflt
-        v = _sz(v)
-        return z3.If(v < 0, z3.If(v + nz < 0, z3.IntVal(0), v + nz), z3.If(v > nz, nz, v))
+        def clampn(v, dflt):
+            if v is None:
+                return dflt
+            v = _sz(v)
+            return z3.If(v < 0, z3.If(v + nz < 0, z3.IntVal(-1), v + nz), z3.If(v >= nz, nz - 1, v))
 
-    a = clamp(sl.start, z3.IntVal(0))
-    b = clamp(sl.stop, nz)
-    return (z3.simplify(a), z3.simplify(z3.If(b - a < 0, 0, b - a)))
+        a = clampn(sl.start, nz - 1)
+        b = clampn(sl.stop, z3.IntVal(-1))
+        return ("neg", z3.simplify(a), z3.simplify(z3.If(a - b < 0, 0, a - b)))
+    raise EngineUnsupported(f"slice step {step!r} not modelled")
 
 
 class DimLen:
@@ -358,7 +369,12 @@ class MArr:
         n = old.sizes[d]
         if isinstance(ix, slice):
             r = norm_slice(ix, n)
-            if isinstance(r[0], str):
+            if isinstance(r[0], str) and r[0] == "neg":
+                _, a0, sz0 = r
+                f = lambda idx: old._elem({**idx, d: a0 - idx[d]})
+                newsize = mk_int(sz0)
+                tag = ("negslice", next(_uid))
+            elif isinstance(r[0], str):
                 nz = r[1]
                 f = lambda idx: old._elem({**idx, d: nz - 1 - idx[d]})
                 newsize = n
@@ -853,6 +869,9 @@ class NArr:
         n = self.shape[-1]
         r = norm_slice(sl, n)
         old = self
+        if isinstance(r[0], str) and r[0] == "neg":
+            _, a0, sz0 = r
+            return NArr(self.shape[:-1] + (mk_int(sz0),), lambda p: old._elem(p[:-1] + (a0 - p[-1],)), self.labels, self.dask)
         if isinstance(r[0], str):
             nz = r[1]
             return NArr(self.shape, lambda p: old._elem(p[:-1] + (nz - 1 - p[-1],)), self.labels, self.dask)
@@ -886,7 +905,10 @@ class NArr:
                 shape.append(n)
                 continue
             r = norm_slice(sl, n)
-            if isinstance(r[0], str):
+            if isinstance(r[0], str) and r[0] == "neg":
+                maps.append(("negoff", r[1]))
+                shape.append(mk_int(r[2]))
+            elif isinstance(r[0], str):
                 nz = r[1]
                 maps.append(("rev", nz))
                 shape.append(n)
@@ -903,6 +925,8 @@ class NArr:
                     q.append(p[ax])
                 elif mp[0] == "rev":
                     q.append(mp[1] - 1 - p[ax])
+                elif mp[0] == "negoff":
+                    q.append(mp[1] - p[ax])
                 else:
                     q.append(p[ax] + mp[1])
             return old._elem(tuple(q))
